@@ -597,6 +597,7 @@ func closureKey(t *T) string {
 }
 
 type machineGraph struct {
+	typeDepth  int
 	m          *machine
 	trans      map[string][]*transition
 	names      []string
@@ -1053,6 +1054,50 @@ func (g *machineGraph) typeOnPath(w *World, v *T, p *Path, state string, firstNe
 	if v.Op == "elem" {
 		if b := stripConv(v.A[0]); b.Op == "sel" && b.A[0].Op == "deref" && b.A[0].A[0].Op == "p" {
 			return g.containerTypes(w, b.S)
+		}
+	}
+	// the token a function of the module hands back: one of the tokens it builds, or the
+	// token it was given (as narrowed by its own tests on the way to that return)
+	if v.Op == "call" {
+		if callee := w.funcByKey(v.S); callee != nil && len(callee.Blocks) > 0 && w.inPkgs(callee) && len(v.A) == len(callee.Params) && g.typeDepth < 3 {
+			cps, err := w.Paths(callee)
+			if err == nil {
+				g.typeDepth++
+				defer func() { g.typeDepth-- }()
+				var set uint64
+				for _, cp := range cps {
+					if cp.End != "ret" || len(cp.Ret) == 0 {
+						continue
+					}
+					rv := stripConv(cp.Ret[0])
+					if s, ok := tokenTypeOf(w, rv); ok {
+						set |= s
+						continue
+					}
+					if rv.Op == "p" {
+						k := -1
+						for i, prm := range callee.Params {
+							if prm.Name() == rv.S {
+								k = i
+							}
+						}
+						if k < 0 {
+							return all
+						}
+						s := g.typeOnPath(w, v.A[k], p, state, firstNext)
+						for sk, ss := range cp.Sets {
+							x := cp.SetTerms[sk]
+							if x.Op == "sel" && x.S == "typ" && x.A[0].Op == "p" && x.A[0].S == rv.S {
+								s &= ss
+							}
+						}
+						set |= s
+						continue
+					}
+					return all
+				}
+				return set
+			}
 		}
 	}
 	return all
